@@ -534,3 +534,10 @@ def check(prog: Program, rep):
     from rules.common import RuleProxy
     for w_ in ("MinFlowDecomp", "MinFlowDecompCycles", "MinPathCover", "MinPathCoverCycles"):
         range_rule(prog, RuleProxy(rep, "C11.R5"), "C03.R2", w_, "solve")
+    rep.rule("C11.R6", "node mode keeps what the expansion needs: fill flag with additional starts / ends, ignore list only grows, single-node routes "
+             "survive the remove-empty filters (C10.R8, C01.R5)", floor=12)
+    from rules import plumb, ns as _ns
+    from rules.common import RuleProxy
+    plumb.node_expansion_fill_rule(prog, RuleProxy(rep, "C11.R6"), "C10.R8")
+    plumb.ignore_list_accumulates(prog, RuleProxy(rep, "C11.R6"), "C10.R8")
+    _ns.arity_rule(prog, RuleProxy(rep, "C11.R6"), "C01.R5")
